@@ -1,12 +1,12 @@
 SPECIFICATION SSpec
 CONSTANTS
   Repaired = TRUE
-  MaxStyles = 3
-  UseAligns = TRUE
+  MaxStyles = 2
+  UseAligns = FALSE
   Depth = 4
-  OwnFields <- MCOwn
-  BorderFields <- MCBorder
-  Values <- MCValues
+  OwnFields <- MCStyled
+  BorderFields <- MCRule
+  Values <- MCTagged
 INVARIANT TypeOK
 INVARIANT NoAliasing
 INVARIANT RenderPure
